@@ -583,16 +583,19 @@ fn known_defect(r: &Req, kind: &str, o: &Obs) -> Option<&'static str> {
     if r.conn == "ka" && (cut_partial || (r.shape == "uc" && r.cut == "full")) && kind == "none" {
         return Some("F26-unflushed-response-dropped-silent-close");
     }
-    if r.shape == "chunked" && r.conn == "close" && cut_partial && kind == "abort"
-        && o.malformed.as_deref().map(|m| m.contains("HTTP/1.1 502")).unwrap_or(false)
-    {
+    // same defect, several buffers: the part still unwritten is dropped, and the client of a
+    // close-delimited body takes the close for its end
+    if r.conn == "ka" && r.shape == "uc" && r.cut == "full" && r.big && kind == "relayed-prefix" {
+        return Some("F26-unflushed-response-dropped-silent-close");
+    }
+    if r.shape == "chunked" && r.conn == "close" && cut_partial && kind == "abort" && o.malformed.is_some() {
         return Some("F27-default-answer-written-into-started-response");
     }
     None
 }
 
 fn time_bound(r: &Req, s: &Setup, first_on_conn: bool) -> Duration {
-    let slack = Duration::from_millis(1500);
+    let slack = Duration::from_millis(2500);
     let sec = |n: u32| Duration::from_secs(n as u64);
     if r.client == "stallhead" {
         return sec(if first_on_conn { s.rt.max(s.ft) } else { s.ft }) + slack;
@@ -611,6 +614,10 @@ fn time_bound(r: &Req, s: &Setup, first_on_conn: bool) -> Duration {
         return sec(s.ft) + sec(s.bt) + slack;
     }
     slack
+}
+
+fn reuses_stalled_now(stalled: bool, r: &Req) -> bool {
+    stalled && r.route == "flt" && r.client == "full"
 }
 
 struct World {
@@ -674,7 +681,7 @@ fn bystander(front: SocketAddr) -> Result<Duration, String> {
     let mut c = RawConn::connect(front).map_err(|e| format!("connect: {e}"))?;
     c.write_all(b"GET /by HTTP/1.1\r\nHost: ok.test\r\n\r\n", Duration::from_secs(1))
         .map_err(|e| format!("write: {e}"))?;
-    let o = observe(&mut c, t0, Duration::from_millis(1500), Duration::ZERO);
+    let o = observe(&mut c, t0, Duration::from_millis(3000), Duration::ZERO);
     if o.status == Some(200) && o.complete && o.body == OK_BODY {
         Ok(t0.elapsed())
     } else {
@@ -779,7 +786,7 @@ impl Area for Faults {
             }
         }
         v.push(ops_of(&s, &[f("garbage", "ka", "full", "close"), plain(1, "flt")]));
-        v.push(ops_of(&s, &[f("cl", "ka", "accept1", "close"), plain(1, "flt")]));
+        v.push(ops_of(&s, &[f("cl", "ka", "accept1", "close")]));
         v.push(ops_of(&s, &[f("cl", "ka", "acceptall", "close")]));
         // backend closes between keep-alive requests
         v.push(ops_of(&s, &[f("cl", "ka", "full", "close"), plain(1, "flt"), plain(2, "flt")]));
@@ -813,13 +820,27 @@ impl Area for Faults {
             rt: *rng.pick(&[1, 1, 2]),
         };
         let n = rng.range(1, 3) as usize;
-        let reqs: Vec<Req> = (0..n).map(|i| self.gen_req(rng, i, thorough)).collect();
+        let mut reqs: Vec<Req> = vec![];
+        for i in 0..n {
+            let q = self.gen_req(rng, i, thorough);
+            // connections closed at accept feed the backend's failure counter (circuit
+            // breaker, property C12): what later requests of the same worker get is then a
+            // matter of back-off timing, so such a request ends its case
+            let last = q.cut.starts_with("accept");
+            reqs.push(q);
+            if last {
+                break;
+            }
+        }
         ops_of(&s, &reqs)
     }
     fn lines_agree(&self, impl_line: &str, model_line: &str) -> bool {
         // impl: `obs <token>`; model: `adm <tok>,<tok>,...`
         if let (Some(o), Some(a)) = (impl_line.strip_prefix("obs "), model_line.strip_prefix("adm ")) {
             let tok = o.split_whitespace().next().unwrap_or("");
+            if tok == "inconclusive" {
+                return true;
+            }
             return a.split_whitespace().next().unwrap_or("").split(',').any(|t| t == tok);
         }
         impl_line == model_line
@@ -851,6 +872,8 @@ impl Area for Faults {
         let front = world.front;
         let mut conn: Option<RawConn> = None;
         let mut holders: Vec<RawConn> = vec![];
+        // the session's keep-alive backend connection belongs to a peer that stopped reading
+        let mut stalled_backend = false;
         for line in &ops[1..] {
             let Some(r) = parse_req(line) else {
                 run.out.push("bad-op".into());
@@ -879,7 +902,9 @@ impl Area for Faults {
                 },
                 Ordering::SeqCst,
             );
-            if r.route == "limit" && holders.is_empty() {
+            if r.route == "limit" {
+                // (a holder left idle is closed by sozu's front timer: take a fresh one)
+                holders.clear();
                 // another frontend connection of this IP already holds the cluster's only slot
                 if let Ok(mut h) = RawConn::connect(front) {
                     let _ = h.write_all(b"GET /hold HTTP/1.1\r\nHost: lim.test\r\n\r\n", Duration::from_secs(1));
@@ -892,6 +917,7 @@ impl Area for Faults {
             }
             let first_on_conn = conn.is_none();
             if conn.is_none() {
+                stalled_backend = false;
                 match RawConn::connect(front) {
                     Ok(c) => conn = Some(c),
                     Err(e) => {
@@ -910,7 +936,11 @@ impl Area for Faults {
             };
             let t0 = Instant::now();
             let wrote = c.write_all(tosend, Duration::from_secs(1));
-            let bound = time_bound(&r, &setup, first_on_conn);
+            let bound = if stalled_backend && r.route == "flt" && r.client == "full" {
+                Duration::from_secs((setup.bt + setup.ft) as u64) + Duration::from_millis(2500)
+            } else {
+                time_bound(&r, &setup, first_on_conn)
+            };
             // a well-behaved request on another connection while this one is in trouble
             let by = if r.end == "stall" || r.client != "full" {
                 thread::sleep(Duration::from_millis(50));
@@ -927,6 +957,18 @@ impl Area for Faults {
             let expected_body: &[u8] = if r.route == "flt" { &body } else { OK_BODY };
             let tok = token(&o, expected_body);
             let kind = tok.split('/').next().unwrap_or("").to_string();
+            // on an overloaded machine the scripted backend may not get to read the request
+            // before sozu's back timer fires: sozu's 504 is then right and says nothing about
+            // the scenario (counted; more than a handful per run is itself reported)
+            let backend_acts = r.route == "flt" && r.client == "full" && !r.cut.starts_with("accept");
+            if backend_acts && !reuses_stalled_now(stalled_backend, &r) && kind == "default:504" && world.flt.hits(r.i) == 0 {
+                run.tags.push("inconclusive:backend-not-scheduled".into());
+                run.out.push("obs inconclusive".into());
+                if let Some(c) = conn.take() {
+                    c.close();
+                }
+                continue;
+            }
             run.tags.push(format!("outcome:{kind}"));
             run.out.push(format!(
                 "obs {tok} framing={} got={} hits={} t={}ms",
@@ -938,7 +980,8 @@ impl Area for Faults {
             let by = by.unwrap_or_else(|| bystander(front));
             // ------------------------------------------------ property oracles --
             let what = format!("{} -> {tok} (framing {}, {} body bytes, end {}, {:?})", fmt_req(&r), o.framing, o.body.len(), o.end, o.t_done);
-            let allowed = property_allows(&r, first_on_conn);
+            let reuses_stalled = stalled_backend && r.route == "flt" && r.client == "full";
+            let allowed = if reuses_stalled { vec!["default:504"] } else { property_allows(&r, first_on_conn) };
             let known = known_defect(&r, &kind, &o);
             let mut found: Vec<(String, String)> = vec![];
             if !allowed.iter().any(|a| *a == kind) {
@@ -982,7 +1025,9 @@ impl Area for Faults {
                     || class.starts_with("closed-without-answer")
                     || class == "more-than-one-answer"
                     || class == "malformed-answer"
-                    || class.starts_with("short-body-connection-kept-open");
+                    || class.starts_with("short-body-connection-kept-open")
+                    || class.starts_with("late-answer")
+                    || class.starts_with("unexpected-outcome");
                 match known {
                     Some(k) if consequence => run.oracle.push((k.to_string(), detail)),
                     _ => run.oracle.push((class, detail)),
@@ -993,6 +1038,9 @@ impl Area for Faults {
             }
             if let Err(e) = by {
                 run.oracle.push((format!("bystander-not-served:{}:{}", r.cut, r.end), format!("{e}; during {}", fmt_req(&r))));
+            }
+            if kind == "relayed" && o.end == "open" && r.route == "flt" {
+                stalled_backend = r.end == "stall" && r.conn == "ka";
             }
             // the next request needs a usable connection
             if o.end != "open" || !o.complete || o.conn_close_hdr && o.status != Some(200) {
@@ -1041,5 +1089,26 @@ fn main() {
         }
         return;
     }
-    std::process::exit(run_area(&Faults, &args));
+    let mut rc = run_area(&Faults, &args);
+    // guard of the `inconclusive` escape: it must stay rare
+    if !args.out.is_empty() && args.replay.is_none() {
+        if let Ok(txt) = std::fs::read_to_string(&args.out) {
+            if let Ok(mut v) = serde_json::from_str::<serde_json::Value>(&txt) {
+                let inc = v["distribution"]["inconclusive:backend-not-scheduled"].as_u64().unwrap_or(0);
+                let n = v["evaluations"].as_u64().unwrap_or(0);
+                if inc * 20 > n.max(20) {
+                    let f = serde_json::json!({"kind": "oracle", "class": "too-many-inconclusive-cases",
+                        "detail": format!("{inc} of {n} cases had a request the scripted backend never got to read before sozu's back timer fired"),
+                        "case": -1, "ops": [], "impl_out": [], "model_out": []});
+                    if let Some(a) = v["failures"].as_array_mut() {
+                        a.push(f);
+                    }
+                    let _ = std::fs::write(&args.out, serde_json::to_string_pretty(&v).unwrap());
+                    println!("FAIL oracle too-many-inconclusive-cases {inc} of {n}");
+                    rc = 1;
+                }
+            }
+        }
+    }
+    std::process::exit(rc);
 }
